@@ -74,6 +74,15 @@ pub fn gen_ttfont(rng: &mut Rng, quick: bool) -> TtFont {
                 })
                 .collect();
             let il = if rng.chance(1, 3) { 1 + rng.below(12) } else { 0 };
+            let mut components: Vec<Component> = components;
+            if il > 0 && nc >= 2 && rng.chance(1, 2) {
+                // WE_HAVE_INSTRUCTIONS on a component other than (or in addition to) the last one
+                let k = rng.below(nc - 1);
+                components[k].extra_flags |= 0x100;
+                if rng.chance(1, 3) {
+                    components[nc - 1].extra_flags |= 0x100;
+                }
+            }
             Glyph::Composite(Composite { components, instructions: rng.bytes(il) })
         } else {
             let mut s = ig::gen_simple(rng, 5, 30, range);
@@ -181,7 +190,7 @@ fn same_glyph(a: &Glyph, b: &Glyph) -> bool {
                 let mut c = c.clone();
                 for k in &mut c.components {
                     k.force_words = false;
-                    k.extra_flags &= !0x400;
+                    k.extra_flags &= !(0x400 | 0x100);
                 }
                 Glyph::Composite(c)
             }
@@ -537,6 +546,9 @@ impl C11 {
             }
             if font.glyphs.iter().any(|g| matches!(g.0, Glyph::Composite(_))) {
                 cx.class("has-composite");
+                if font.glyphs.iter().any(|(g, _)| matches!(g, Glyph::Composite(c) if !c.instructions.is_empty() && c.components.len() >= 2 && c.components[..c.components.len() - 1].iter().any(|k| k.extra_flags & 0x100 != 0) && c.components[c.components.len() - 1].extra_flags & 0x100 == 0)) {
+                    cx.class("composite:instructions-flag-on-non-last-component-only");
+                }
             }
         }
         cx.nontrivial(hash_bytes(&e.bytes));
